@@ -1,6 +1,11 @@
 // C10: evaluation is deterministic — value, printed output, error message and
 // step count do not depend on map iteration order, addresses, scheduling,
 // other runtimes that ran earlier, or the process.
+//
+// Legs: repeat / predecessor / process (this file), shared-sweep and
+// shared-values (shared_test.go: values handed out by builtins are written
+// through in place by an earlier runtime), conclib (conclib_test.go: many
+// runtimes inside the same library code at once; re-run under -race).
 package c10
 
 import (
@@ -134,7 +139,11 @@ func (g *dg) val(depth int) string {
 
 func (g *dg) form() string {
 	v := g.val(3)
-	switch g.n(0, 36, "form") {
+	switch g.n(0, 39, "form") {
+	case 37, 38, 39:
+		// a builtin chosen from the registry, called on boundary inputs; the
+		// value it hands out is written through in place and the call repeated
+		return g.sharedForm()
 	case 35, 36:
 		// a package whose export list names several unbound symbols: which one
 		// use-package complains about, and what it imported before that
@@ -521,5 +530,8 @@ func TestCheck(t *testing.T) {
 		vcommon.S("repeat", 16000, 400000, genCase(), checkRepeat),
 		vcommon.S("predecessor", 24000, 600000, genPred(), checkPred),
 		vcommon.S("process", 480, 10000, genBatch(), checkProcess),
+		vcommon.E("shared-sweep", enumShared, checkShared),
+		vcommon.S("shared-values", 4800, 120000, genShared(), checkShared),
+		vcommon.S("conclib", 400, 16000, genConcLib(), checkConcLib),
 	)
 }
